@@ -295,7 +295,93 @@ def mapper_step(p):
     return mk('mapper_step', sig, pre, body)
 
 
-FAMILIES = {'step': step, 'history': history, 'mapper_step': mapper_step}
+BIG = [7, 8, 9, 15, 16, 17, 31, 32, 33, 63, 64, 65, 127, 128, 129, 255, 256, 257, 1023, 1024, 1025]
+
+
+def far(p):
+    """indices far beyond the small states of the other families (neighbours of powers of two: growth steps of buffers): three solver-chosen large indices,
+    added in a solver-chosen order, written / deleted / re-added; every touched index and its neighbours read what the model says"""
+    tname = p['type']
+    base = p['i0']
+    dt, conv, default = TYPES[tname]
+    sig = [('i0', 'int'), ('i1', 'int'), ('i2', 'int'), ('v0', 'int'), ('v1', 'int'), ('op', 'int')]
+    pre = ['0 <= i0 <= 1', '0 <= i1 <= 3', '0 <= i2 <= 2', '-2**40 <= v0 <= 2**40', '-2**40 <= v1 <= 2**40', '0 <= op <= 2']
+    if dt == 'uint':
+        pre = [x.replace('-2**40 <=', '0 <=') for x in pre]
+
+    def body(a):
+        i0 = [0, base][_sel(a[0], 2)]                                   # the first key: index 0 or the far index itself (growth in one jump from an empty store)
+        i1 = [base - 1, base + 1, base + 40, 1][_sel(a[1], 4)]          # a neighbour below / above, a second far jump, or a small index after the far one
+        i2 = [base, base + 2, 3][_sel(a[2], 3)]
+        if i1 == i0:
+            i1 = i0 + 5
+        if i2 in (i0, i1):
+            i2 = max(i0, i1) + 7
+        v0, v1 = conv(a[3]), conv(a[4])
+        st = MemoryStore(data_type=dt, default_value=default)
+        m = {}
+        st.add_key((i0,)); m[i0] = ('set', default) if default is not None else ('notset',)
+        st.set((i0,), v0); m[i0] = ('set', v0)
+        st.add_key((i1,)); m[i1] = ('set', default) if default is not None else ('notset',)
+        op = _sel(a[5], 3)
+        if op == 0:
+            st.set((i1,), v1); m[i1] = ('set', v1)
+        elif op == 1:
+            st.del_key((i1,)); m[i1] = ('cleared',)
+            st.add_key((i2,)); m[i2] = ('set', default) if default is not None else ('notset',)
+        else:
+            st.add_key((i2,)); m[i2] = ('set', default) if default is not None else ('notset',)
+            st.set((i2,), v1); m[i2] = ('set', v1)
+        for i, e in m.items():
+            if e[0] == 'cleared':
+                if not st.is_cleared((i,)):
+                    return fail(index=i, problem='should read cleared')
+                continue
+            g = st.get((i,))
+            if e[0] == 'notset' and g is not NS:
+                return fail(index=i, problem='should read NOTSET', observed=g, indices=[i0, i1, i2])
+            if e[0] == 'set' and (g is NS or g != e[1]):
+                return fail(index=i, problem='should read %r' % (e[1],), observed=g, indices=[i0, i1, i2], type=tname)
+        live = sorted(i for i, e in m.items() if e[0] != 'cleared')
+        got = [k[0] for (k, v, s_) in st.iterate()]
+        if got != live:
+            return fail(problem='iterate', observed=got, expected=live, indices=[i0, i1, i2])
+        for j in (1, 2, base - 2, base + 3, base + 20):                   # holes that were never added read cleared
+            if j >= 0 and j not in m and j <= max(m) and not st.is_cleared((j,)):
+                return fail(problem='a never-added index does not read cleared', index=j, indices=[i0, i1, i2])
+        return True
+    return mk('store_far', sig, pre, body)
+
+
+def mapper_many(p):
+    """many groups: n (solver-chosen, up to 40) distinct map keys added under two parent keys alternately: every index handed out differs from all live ones, lookups return them"""
+    NMAX_ = p['nmax']
+
+    def body(a):
+        n = _sel(a[0], NMAX_ + 1)
+        st = MemoryStore(data_type='mapper')
+        st.add_key((0,))
+        st.add_key((5,))
+        used = {}
+        for j in range(n):
+            parent = (0,) if j % 2 == 0 else (5,)
+            mk_ = ('k', j)
+            if st.get_map(parent, mk_) is not NS:
+                return fail(problem='fresh key reported as mapped', j=j)
+            idx = st.add_map(parent, mk_)
+            if idx in used.values():
+                return fail(problem='index %r handed out while still in use' % (idx,), n=n, j=j)
+            used[(parent, mk_)] = idx
+        for (parent, mk_), idx in used.items():
+            if st.get_map(parent, mk_) != idx:
+                return fail(problem='lookup of %r' % (mk_,), n=n)
+        if list(st.iterate_map((0,))) != [('k', j) for j in range(0, n, 2)] or list(st.iterate_map((5,))) != [('k', j) for j in range(1, n, 2)]:
+            return fail(problem='iterate_map', n=n)
+        return True
+    return mk('mapper_many', [('n', 'int')], ['0 <= n <= %d' % NMAX_], body)
+
+
+FAMILIES = {'far': far, 'mapper_many': mapper_many, 'step': step, 'history': history, 'mapper_step': mapper_step}
 
 
 def obligations(tier, seed):
@@ -324,6 +410,10 @@ def obligations(tier, seed):
                         continue       # outside the contract: only the added index is live
                     obs.append(Ob(PROP, 'history', dict(depth=3 if q else 4, type=t, first=first, op0=op0, idx0=idx0), budget=b if q else 1800, group='history',
                                   bound=dict(operations=3 if q else 4, type=t, first_index=first, indices=IDX)))
+    for t in (('int', 'obj_d') if q else ('int', 'obj_d', 'uint', 'bool_d', 'float', 'obj')):
+        for i0 in ((8, 16, 32, 33, 64, 256) if q else BIG):
+            obs.append(Ob(PROP, 'far', dict(type=t, i0=i0), budget=b, group='far indices', bound=dict(far_index=i0, neighbours='solver-chosen', type=t)))
+    obs.append(Ob(PROP, 'mapper_many', dict(nmax=40 if q else 130), budget=b * 2, group='many groups', bound=dict(groups='solver-chosen up to %d' % (40 if q else 130))))
     obs.append(Ob(PROP, 'mapper_step', dict(), budget=b, bound=dict(parent_keys=2, map_keys=2, step='one operation from an arbitrary map state')))
     obs.append(Ob(PROP, 'step', dict(k=2, type='int', _twin='reach'), budget=60, expect='refute'))
     obs.append(Ob(PROP, 'mapper_step', dict(_twin='reach'), budget=60, expect='refute'))
